@@ -368,4 +368,44 @@ PROPS['C20'] = dict(
     technique='frame analysis by symbolic execution (every store resolved to its heap object) + native purity sweep',
 )
 
+
+def _native_sweep(script, rule, n_quick, n_thorough):
+    def f(run):
+        import json
+        import subprocess
+        import os
+        here = os.path.dirname(os.path.abspath(__file__))
+        n = n_quick if run.tier == 'quick' else n_thorough
+        p = subprocess.run(['/venv/bin/python', os.path.join(here, 'bounded', script), run.program.repo, str(run.seed), str(n)],
+                           capture_output=True, text=True, timeout=6000)
+        line = [l for l in p.stdout.splitlines() if l.startswith('@@JSON@@')]
+        if not line:
+            return dict(evaluations=0, distinct_nontrivial=0, rule='native sweep failed to run: ' + p.stderr[-300:], samples=[],
+                        violations=[dict(function=script, what='sweep crashed', failing_input={'stderr': p.stderr[-500:]})], label='bounded')
+        d = json.loads(line[0][8:])
+        return dict(evaluations=d['evaluations'], distinct_nontrivial=d['distinct_nontrivial'], rule=rule, samples=d['samples'],
+                    violations=[dict(function=x.get('route') or x.get('routine'), what=x['what'], failing_input=x) for x in d['problems']],
+                    label='bounded')
+    return f
+
+
+PROPS['C03'] = dict(
+    modules=[],
+    contracts=[],
+    lemmas=[],
+    bounded={'early-abandoning-native-sweep': _native_sweep(
+        'pruning_native.py',
+        'random small pairs (lengths <= 6, ndim 1..2) x window/penalty/psi/inner distance x four routes (Python/C distance, '
+        'Python/C cost matrix): max_dist at 0.5/0.9/1.1/2.0 times the unbounded distance must give that distance resp. inf; '
+        'use_pruning where the Euclidean distance is a valid upper bound must give the unpruned result', 120, 1500)},
+    level='exploration',
+    level_text='Bounded stand-in only: the pruning invariant (every skipped cell has all predecessors above the bound) is not '
+               'under contract; the real engines are swept against their own unbounded results on small inputs.',
+    level_note='No unbounded claim. The sweep has recorded three families of genuine defects (known_findings.json: KF-C03-1..3).',
+    trusted_base=[],
+    assumptions=['bounded: lengths <= 6, sampled options'],
+    not_decided=['unbounded proof of the PrunedDTW invariant in dtw.distance / dtw.warping_paths / the C kernels'],
+    technique='bounded sweep of the real engines (stand-in; contracts for the pruning invariant are not written)',
+)
+
 NOT_APPLICABLE = {p: 'not decided yet: machinery for this property is still being built (see DESIGN.md §9 order of work)' for p in ['C01', 'C02', 'C03', 'C04', 'C05', 'C06', 'C07', 'C08', 'C09', 'C10', 'C11', 'C12', 'C13', 'C14', 'C15', 'C16', 'C17', 'C18', 'C19', 'C20'] if p not in PROPS}
